@@ -7,6 +7,7 @@ import (
 
 	"google.golang.org/protobuf/encoding/protojson"
 	"google.golang.org/protobuf/encoding/prototext"
+	"google.golang.org/protobuf/encoding/protowire"
 	"google.golang.org/protobuf/proto"
 	"google.golang.org/protobuf/reflect/protoreflect"
 	"google.golang.org/protobuf/verif/core"
@@ -98,7 +99,12 @@ func c17Input(r *core.Rand, mt protoreflect.MessageType, lazyFds []protoreflect.
 		return enc
 	}
 	recs = gen.Transform(r, recs, mt.Descriptor(), r.Intn(5), hist)
-	return gen.Serialize(recs)
+	out := gen.Serialize(recs)
+	if len(lazyFds) > 0 && r.Chance(1, 4) {
+		out = gen.InsertWrongType(r, out, mt.Descriptor(), lazyFds[r.Intn(len(lazyFds))].Number(), protowire.BytesType)
+		hist("wrong-wiretype-on-lazy-field")
+	}
+	return out
 }
 
 func jsonOf(m protoreflect.Message) (string, bool) {
